@@ -140,9 +140,16 @@ CheckReload(e, line) ==
         \/ Bad(line, "reload:index-content", e.post[n].idx[i].name, e.post[n].idx[i].list)
   /\ \A n \in DOMAIN e.post : UniqueOK(ObsColl(e.post[n])) \/ Bad(line, "reload:unique", n, "")
 
+(* the caller overwrites arguments it passed or values it got back (C17): a stuttering step of the database *)
+CheckMutate(e, line) ==
+  /\ (e.pre.tok = e.post.tok \/ Bad(line, "alias:" \o e.what \o ":" \o e.op, "stored bytes unchanged", "stored bytes changed"))
+  /\ (e.pre.state = e.post.state \/ Bad(line, "alias:" \o e.what \o ":" \o e.op, e.pre.state, e.post.state))
+  /\ (e.pre.log = e.post.log \/ Bad(line, "alias:" \o e.what \o ":" \o e.op, "change log unchanged", "change log changed"))
+
 Checked == l # 0 => CASE Trace[l].fn = "call" -> CheckCall(Trace[l], l)
                       [] Trace[l].fn = "clean" -> CheckClean(Trace[l], l)
                       [] Trace[l].fn = "expire" -> CheckExpire(Trace[l], l)
                       [] Trace[l].fn = "reload" -> CheckReload(Trace[l], l)
+                      [] Trace[l].fn = "mutate" -> CheckMutate(Trace[l], l)
                       [] OTHER -> TRUE
 =============================================================================
